@@ -83,6 +83,7 @@ class Report:
         self.notes = []
         self.units = []
         self.idents = set()
+        self.s_done = set()
     def count(self, rule, n=1):
         self.counts[rule] = self.counts.get(rule, 0) + n
     def floor(self, rule, n):
